@@ -62,6 +62,24 @@ func (p *Prog) nonNilMap(v ssa.Value, b *ssa.BasicBlock, edge []condFact, depth 
 			}
 		}
 		return true
+	case *ssa.Call:
+		// a helper that normalises its argument (ensureAttributes): every return of it is non-nil
+		if sc := x.Call.StaticCallee(); sc != nil && p.InUniverse(sc) && sc.Blocks != nil && depth < 4 {
+			all, n := true, 0
+			for _, rb := range sc.Blocks {
+				ret, ok := rb.Instrs[len(rb.Instrs)-1].(*ssa.Return)
+				if !ok || len(ret.Results) == 0 {
+					continue
+				}
+				n++
+				if !p.nonNilMap(ret.Results[0], rb, nil, depth+2) {
+					all = false
+				}
+			}
+			if all && n > 0 {
+				return true
+			}
+		}
 	case *ssa.UnOp:
 		// a load from a local cell (the variable was spilled, e.g. because a closure captures it)
 		if al, ok := cellAddr(x.X).(*ssa.Alloc); ok && x.Op == token.MUL {
